@@ -6,6 +6,8 @@
 // run.cycle.top, run.advance.done, rt.wait.before, rt.wait.after,
 // rt.push.{enter,locked,unlocked,notified} and rt.stop.{enter,locked,unlocked,notified}.
 #define HGRAPH_VERIF_RTLOOP_POINTS 1
+// Named sync points exist in push_source_node.cpp (admission, pop, re-arm, stop).
+#define HGRAPH_VERIF_PUSHQ_POINTS 1
 
 // Verification hooks (add-only instrumentation, used by an external
 // verification harness). Everything here is inert unless the process was
